@@ -456,6 +456,24 @@ class Interp:
                     return
                 self.block(st.body)
                 return
+        # `if <param> == 0: <special> else: <general>`: a special case for a vanishing kernel parameter.  The general branch is
+        # taken; with the parameter in skip_if (the caller's second pass) the special one - the caller requires the special
+        # value to equal the general one AT parameter = 0 (same check as for the `!= 0` fast path)
+        if (
+            isinstance(t, ast.Compare)
+            and len(t.ops) == 1
+            and isinstance(t.ops[0], ast.Eq)
+            and isinstance(t.comparators[0], ast.Constant)
+            and t.comparators[0].value == 0
+            and "skip_if" in self.hooks
+        ):
+            v = self.ev(t.left)
+            if isinstance(v, V):
+                ats = sorted(v.atoms())
+                if len(ats) == 1 and v.eq(V.atom(ats[0])):
+                    self.seen_param_ifs.append(ats[0])
+                    self.block(st.body if ("*" in self.skip_if or ats[0] in self.skip_if) else st.orelse)
+                    return
         # `if <param> > 0:` / `< 0` (either strictness): a guard on the SIGN of a kernel parameter.  The body is taken; the
         # caller re-runs with hook "skip_sign" to obtain the value on the other half-line (the kernel is analytic in the
         # parameter, so the two values must be the same expression)
